@@ -24,3 +24,20 @@ PROPS["C10"] = dict(
         dict(test="TestC10RunLoop", quick=dict(checks=8000, shards=8, timeout=300), thorough=dict(checks=400000, shards=16, timeout=2400)),
     ],
 )
+
+PROPS["C03"] = dict(
+    pkg="c03", level="exploration",
+    technique="property-based differential testing (rapid): typed expression-tree generator, three-way oracle runtime vs harness reference evaluator (TLA+ and fragment modes), reference cross-checked against TLC",
+    level_text="Generated search over expression trees (depth<=4) on every exported operator/builtin, 30% with ill-typed subtrees, int32 boundary "
+               "values; outcome classes value / loud TLA+ error / foreign panic / hang compared with an independent reference evaluator. "
+               "Sampling of an infinite input space; no claim of exhaustiveness.",
+    level_note="Trusts the harness reference evaluator (itself checked against TLC in the thorough tier); heterogeneous comparisons, lazily "
+               "evaluated bodies that error, multi-witness CHOOSE, ToString of composites and strings-as-sequences are classed ambiguous and not asserted.",
+    rule="typed expression trees of depth 1-4 over all operators (see classes op.*), leaves biased to int32 boundaries; non-trivial = depth>=2, some "
+         "collection with >=2 members met during evaluation, TLC outcome not an error; distinct by rendered expression.",
+    runs=[
+        dict(test="TestC03Expr", quick=dict(checks=160000, shards=16, timeout=600), thorough=dict(checks=4000000, shards=16, timeout=3000)),
+        dict(test="TestC03TLC", quick=dict(checks=1500, shards=1, timeout=600), thorough=dict(checks=40000, shards=1, timeout=3000)),
+        dict(test="FuzzC03", kind="fuzz", thorough=dict(checks=1, shards=1, fuzztime="420s", parallel=16, timeout=900)),
+    ],
+)
